@@ -33,6 +33,34 @@ pub struct InfixOpConfig(
     pub Arc<InfixOpFunc>,
 );
 
+/// Exact remainder with the sign of the dividend. rust_decimal's own remainder returns a wrong
+/// value when aligning the two scales does not fit its 96 bits (e.g.
+/// 9223372036854775807 % 0.9999999999999999999999999999), so the integer mantissas are used.
+fn decimal_rem(a: Decimal, b: Decimal) -> Option<Decimal> {
+    let (ma, mb) = (a.mantissa().unsigned_abs(), b.mantissa().unsigned_abs());
+    if mb == 0 {
+        return None;
+    }
+    let (sa, sb) = (a.scale(), b.scale());
+    let r = if sa <= sb {
+        // (ma * 10^(sb - sa)) mod mb, one decimal digit at a time: r < mb < 2^96, so r * 10 fits
+        let mut r = ma % mb;
+        for _ in 0..(sb - sa) {
+            r = (r * 10) % mb;
+        }
+        r
+    } else {
+        // ma mod (mb * 10^(sa - sb)); a divisor too large to write down exceeds the dividend
+        match 10u128.checked_pow(sa - sb).and_then(|p| mb.checked_mul(p)) {
+            Some(m) => ma % m,
+            None => ma,
+        }
+    };
+    let mut ans = Decimal::from_i128_with_scale(r as i128, sa.max(sb));
+    ans.set_sign_negative(a.is_sign_negative() && r != 0);
+    Some(ans)
+}
+
 pub struct InfixOpManager {
     store: &'static Mutex<HashMap<String, InfixOpConfig>>,
 }
@@ -73,7 +101,7 @@ impl InfixOpManager {
                         "-=" => a.checked_sub(b),
                         "*=" => a.checked_mul(b),
                         "/=" => a.checked_div(b),
-                        "%=" => a.checked_rem(b),
+                        "%=" => decimal_rem(a, b),
                         _ => Some(a),
                     }
                     .ok_or(Error::NumberOverflow)?;
@@ -203,7 +231,7 @@ impl InfixOpManager {
                         "-" => a.checked_sub(b),
                         "*" => a.checked_mul(b),
                         "/" => a.checked_div(b),
-                        "%" => a.checked_rem(b),
+                        "%" => decimal_rem(a, b),
                         _ => Some(a),
                     }
                     .ok_or(Error::NumberOverflow)?;
